@@ -41,6 +41,7 @@ type SimStream struct {
 	OnOpen      func(epoch int)           // after a successful Open
 	OnClose     func(epoch int)           // after Close by the system under test
 	OnReadErr   func(epoch int, err error) // a Read call returned the injected end/error
+	OnOpenWhileOpen func() // Open called on an open stream (returns ALREADY_OPEN)
 	OnStaleRead func(readerEpoch, epoch int) // a read loop started for an earlier open reads the current connection
 	openSteps   []int
 	// fault plan: consulted with the 0-based index of the call within the run
@@ -89,7 +90,11 @@ func (st *SimStream) Open() error {
 	i := st.Opens
 	st.Opens++
 	if st.open {
+		cb := st.OnOpenWhileOpen
 		st.mu.Unlock()
+		if cb != nil {
+			cb()
+		}
 		return thrift.NewTTransportException(thrift.ALREADY_OPEN, "Socket already connected.")
 	}
 	f := st.OpenFault
